@@ -60,15 +60,15 @@ type KnownFinding struct {
 }
 
 type ObligReport struct {
-	Name    string  `json:"name"`
-	Kind    string  `json:"kind"`
-	Func    string  `json:"func"`
-	Pos     string  `json:"pos"`
-	Clause  string  `json:"clause,omitempty"`
-	Status  string  `json:"status"`
-	Solver  string  `json:"solver"`
-	Secs    float64 `json:"secs"`
-	SMTSize int     `json:"smt_bytes"`
+	Name    string   `json:"name"`
+	Kind    string   `json:"kind"`
+	Func    string   `json:"func"`
+	Pos     string   `json:"pos"`
+	Clause  string   `json:"clause,omitempty"`
+	Status  string   `json:"status"`
+	Solver  string   `json:"solver"`
+	Secs    float64  `json:"secs"`
+	SMTSize int      `json:"smt_bytes"`
 	Tried   []string `json:"tried,omitempty"`
 }
 
@@ -440,8 +440,8 @@ func cmdCheck(args []string) int {
 		"property_id": *prop, "tier": *tier, "seed": seed, "level": "proof",
 		"coverage": map[string]any{
 			"obligations": total, "discharged": discharged,
-			"checker_cmd":  fmt.Sprintf("bin/govc check -prop %s -tier %s (SSA->SMT-LIB VCs; z3-new/cvc5/z3 per obligation)", *prop, *tier),
-			"trusted_base": tb,
+			"checker_cmd":              fmt.Sprintf("bin/govc check -prop %s -tier %s (SSA->SMT-LIB VCs; z3-new/cvc5/z3 per obligation)", *prop, *tier),
+			"trusted_base":             tb,
 			"functions_under_contract": funcs,
 			"cover_checks":             covers,
 			"solver_use":               solverUse,
